@@ -130,7 +130,7 @@ func c03Run(e *vh.Env, c c03Case, o *vh.Out) {
 	t0 := time.Now()
 	r := doFault(sys, "ok", nil)
 	d := time.Since(t0)
-	if vh.IsSim && d != 0 {
+	if vh.IsSim && vh.Took(d) {
 		// nothing may slow a healthy exchange down; a non-zero virtual duration that does not repeat is a time anomaly
 		vh.FlagAnomaly(fmt.Sprintf("c03 probe took %v", d))
 	}
